@@ -4,9 +4,10 @@ PATCH="$(realpath "$1")"; PROP="$2"; TIER="${3:-quick}"
 W="$(mktemp -d /tmp/gvmut.XXXXXX)"; rmdir "$W"
 git -C /repo worktree add --detach "$W" HEAD >/dev/null 2>&1 || exit 3
 ( cd "$W" && git apply "$PATCH" ) || { git -C /repo worktree remove --force "$W"; echo "PATCH FAILED"; exit 3; }
-cd /verif && VERIF_REPO="$W" ./check "$PROP" "$TIER"
+HERE="$(cd "$(dirname "$0")/.." && pwd)"
+cd "$HERE" && VERIF_REPO="$W" ./check "$PROP" "$TIER"
 RC=$?
 git -C /repo worktree remove --force "$W"
-rm -rf "/verif/.build/$(python3 -c "import hashlib,sys;print(hashlib.sha1(sys.argv[1].encode()).hexdigest()[:10])" "$W")"
+rm -rf "$HERE/.build/$(python3 -c "import hashlib,sys;print(hashlib.sha1(sys.argv[1].encode()).hexdigest()[:10])" "$W")"
 echo "mutrun rc=$RC"
 exit $RC
